@@ -119,6 +119,23 @@ LINKS_ASYNC_TO = {
     "agen": ["asyncfor", "anext", "asend", "athrow_inflight", "aclose_inflight"],
     "leaf": ["awleaf"],
 }
+if sys.version_info >= (3, 10):
+    # the two-argument form of the anext() builtin wraps the awaitable in an object of its own
+    LINKS_ASYNC_TO["agen"].append("anext_default")
+    LINKS_ASYNC_TO["coro"].append("anext_default_coro")
+
+
+class AIterOf(object):
+    """Async iterator whose __anext__ hands out the given awaitable."""
+
+    def __init__(self, aw):
+        self.aw = aw
+
+    def __aiter__(self):
+        return self
+
+    def __anext__(self):
+        return self.aw
 LINKS_GEN_TO = {
     "gen": ["yieldfrom"],
     "gbcoro": ["yieldfrom"],
@@ -230,6 +247,10 @@ class ChainGen(object):
                     L.append("    " * (ind + 1) + "pass")
                 elif link == "anext":
                     L.append("    " * ind + "await W.link(F, %d, %s).__anext__()" % (sid, callee))
+                elif link == "anext_default":
+                    L.append("    " * ind + "await anext(W.link(F, %d, %s), None)" % (sid, callee))
+                elif link == "anext_default_coro":
+                    L.append("    " * ind + "await anext(AIterOf(W.link(F, %d, %s)), None)" % (sid, callee))
                 elif link == "asend":
                     L.append("    " * ind + "await W.link(F, %d, %s).asend(None)" % (sid, callee))
                 elif link == "athrow_inflight":
@@ -279,7 +300,7 @@ class ChainWorld(object):
         W.leaves = {}
         ns = {
             "W": W, "trap": rt.trap, "types": types, "contextlib": contextlib,
-            "AwWrapper": AwWrapper, "AwGen": AwGen, "AwReturnsGen": AwReturnsGen, "AwLeaf": AwLeaf,
+            "AwWrapper": AwWrapper, "AIterOf": AIterOf, "AwGen": AwGen, "AwReturnsGen": AwReturnsGen, "AwLeaf": AwLeaf,
             "leaf_iter": leaf_iter, "__name__": "vsim_chain",
         }
         exec(self.code, ns)
